@@ -43,7 +43,9 @@ def run(ctx):
         "at-most-once, no loss of a live document arrival, order, high-water-mark soundness, no hidden gap, late handling, overdue skipping and the "
         "stable sequence for every feed (contradictory declarations included)",
         "abandonment after CacheSkippedSeqMaxWait is an explicit environment action and abandoned sequences are excluded from SkippedExact",
-        "the response clause (LowSeq = stable in _changes) is bound through C01; here the exposed stable sequence itself is checked",
+        "the response clause (LowSeq = stable in _changes) is bound through C01; here the exposed stable sequence itself is checked, and - because "
+        "_changes reads the skipped list without changeCache.lock - also the lock-free view (skipped membership, high cache sequence) at the instant of "
+        "every forward inside a critical section (MidNoHiddenGap)",
     ]
 
 
